@@ -69,6 +69,8 @@ struct Scene {
   bool vacuous = false;   // tolerance exceeds 1/200 of feature scale
   int squash = 0;         // x stretched by this factor (negative: y squeezed by it), 0 = isotropic
   int collinear = 0;      // redundant collinear vertices inserted on edges
+  bool flat = false;      // dense-scanline flat scene (few y levels, x stretched)
+  bool tie = false;       // one crossing was nudged a hair past the y of another vertex (sweep-line tie)
   long long crossings = 0;
 };
 
@@ -141,12 +143,89 @@ inline void lattice_snap(Rng& r, Paths64& pp, int64_t step, int64_t jitter) {
   for (auto& p : pp) strip_dups_closed(p);
 }
 
-struct GpCounters { long long tries = 0, rejected = 0, gave_up = 0; };
+struct GpCounters { long long tries = 0, rejected = 0, gave_up = 0, flat = 0, tie = 0; };
+
+// Hostile scanline placement (sweep-line tie) for closed paths: move the x of one vertex until the crossing of one of its
+// edges with an edge of another path lies a hair past the y of some other vertex (0 < |yc - s| < 1/|dx1 - dx2|), so that
+// the integer curr_x of the two edges tie at scanline s and the sweep discovers the crossing one scanbeam late (the
+// intersection-repair branches of AddNewIntersectNode). The scene must stay in general position.
+static int g_nudge_attempts = 48;   // random (vertex, edge) pairs tried per call
+inline bool nudge_crossing_past_scanline(Rng& r, Scene& sc) {
+  Paths64 all = concat(sc.subj, sc.clip);
+  if (all.size() < 2) return false;
+  const size_t ns = sc.subj.size();
+  for (int attempt = 0; attempt < g_nudge_attempts; ++attempt) {
+    size_t ai = (size_t)r.irange(0, (int)all.size() - 1), bi = (size_t)r.irange(0, (int)all.size() - 1);
+    if (ai == bi) continue;
+    Path64& A = all[ai]; const Path64& B = all[bi];
+    if (A.size() < 3 || B.size() < 3) continue;
+    size_t vi = (size_t)r.irange(0, (int)A.size() - 1); const bool fwd = r.coin();
+    const Point64 mv0 = A[vi], keep = A[fwd ? (vi + 1) % A.size() : (vi + A.size() - 1) % A.size()];
+    size_t ci = (size_t)r.irange(0, (int)B.size() - 1);
+    const Point64 c0 = B[ci], c1 = B[(ci + 1) % B.size()];
+    if (c0.y == c1.y || keep.y == mv0.y) continue;
+    auto yc_of = [&](int64_t mx) -> ld { Point64 a(mx, mv0.y); if (!proper_cross(a, keep, c0, c1)) return (ld)NAN; return line_cross(a, keep, c0, c1).y; };
+    ld y_at0 = yc_of(mv0.x); if (!(y_at0 == y_at0)) continue;
+    bool have = false; int64_t s_best = 0;
+    for (size_t pi = 0; pi < all.size(); ++pi) for (size_t k = 0; k < all[pi].size(); ++k) {
+      if (pi == ai && k == vi) continue;
+      int64_t y = all[pi][k].y;
+      if (!have || fabsl((ld)y - y_at0) < fabsl((ld)s_best - y_at0)) { s_best = y; have = true; }
+    }
+    if (!have || fabsl((ld)s_best - y_at0) > std::max<ld>(8, fabsl((ld)keep.y - (ld)mv0.y) / 4)) continue;
+    ld dxo = ((ld)keep.x - (ld)mv0.x) / ((ld)keep.y - (ld)mv0.y), dxc = ((ld)c1.x - (ld)c0.x) / ((ld)c1.y - (ld)c0.y);
+    ld win = 1.0L / std::max<ld>(1.0L, fabsl(dxo - dxc));
+    const int64_t W = std::max<int64_t>(64, (keep.x > mv0.x ? keep.x - mv0.x : mv0.x - keep.x) / 4);
+    int64_t lo = mv0.x - W, hi = mv0.x + W; ld ylo = yc_of(lo), yhi = yc_of(hi);
+    if (!(ylo == ylo) || !(yhi == yhi) || (ylo - s_best) * (yhi - s_best) > 0) continue;
+    for (int it = 0; it < 80 && hi - lo > 1; ++it) { int64_t mid = lo + (hi - lo) / 2; ld ym = yc_of(mid); if (!(ym == ym)) break; if ((ylo - s_best) * (ym - s_best) <= 0) { hi = mid; yhi = ym; } else { lo = mid; ylo = ym; } }
+    for (int64_t x = lo - 3; x <= hi + 3; ++x) {
+      ld y = yc_of(x); if (!(y == y)) continue; ld e = fabsl(y - s_best);
+      if (e > 0 && e < win) {
+        Paths64 all2 = all; all2[ai][vi].x = x;
+        int64_t M = max_abs_coord(all2);
+        if (M > std::max<int64_t>(sc.M, (int64_t)1 << sc.magclass) || !general_position(all2, M)) continue;
+        sc.subj.assign(all2.begin(), all2.begin() + (long)ns); sc.clip.assign(all2.begin() + (long)ns, all2.end());
+        sc.M = M; sc.tie = true;
+        return true;
+      }
+    }
+  }
+  return false;
+}
+
+// dense-scanline flat scene: everything on a small y range (many vertices share few scanlines) and x stretched by k, so
+// that all edges are nearly horizontal and cross at very shallow angles (max |coord| about 2^20)
+inline bool flat_scene(Rng& r, GpCounters& gc, Scene& sc) {
+  static const int64_t ks[] = { 300, 1000, 3000, 10000 };
+  const int64_t k = ks[r.irange(0, 3)]; const int64_t Y = r.irange(12, 60), X = r.irange(12, 60); const int64_t oy = r.coin() ? -2 * Y : (r.coin() ? 2 * Y : 0);
+  for (int t = 0; t < 40; ++t) {
+    auto poly = [&](int n) { Path64 p; for (int q = 0; q < n; ++q) p.push_back(Point64(r.range(-X, X) * k + r.range(-k / 3, k / 3), r.range(-Y, Y) + oy)); strip_dups_closed(p); return p; };
+    sc.subj.clear(); sc.clip.clear();
+    int ns = r.irange(1, 2), nc = r.irange(1, 2);
+    for (int q = 0; q < ns; ++q) sc.subj.push_back(poly(r.irange(3, 6)));
+    for (int q = 0; q < nc; ++q) sc.clip.push_back(poly(r.irange(3, 6)));
+    bool small = false; for (auto* pp : { &sc.subj, &sc.clip }) for (auto& p : *pp) if (p.size() < 3) small = true;
+    if (small) continue;
+    Paths64 all = concat(sc.subj, sc.clip);
+    sc.M = max_abs_coord(all);
+    ++gc.tries;
+    GPStats st;
+    if (general_position(all, sc.M, &st)) { sc.ok = true; sc.shape = 9; sc.squash = (int)k; sc.flat = true; sc.collinear = 0; sc.R = (double)(X * k); sc.crossings = st.crossings; sc.vacuous = false; return true; }
+    ++gc.rejected;
+  }
+  return false;
+}
 
 // Produce a scene in general position with max |coord| <= 2^magexp. maxM caps the magnitude (C13 uses 2^40).
 inline Scene gp_scene(Rng& r, GpCounters& gc, int magexp, int shape = -1, int max_tries = 60) {
   Scene sc; sc.magclass = magexp;
   const int64_t Mmax = (int64_t)1 << magexp;
+  if (shape < 0 && magexp >= 24 && r.chance(0.05) && flat_scene(r, gc, sc)) {
+    ++gc.flat;
+    if (r.chance(0.7) && nudge_crossing_past_scanline(r, sc)) ++gc.tie;
+    return sc;
+  }
   for (int t = 0; t < max_tries; ++t) {
     ++gc.tries; sc.squash = 0;
     int sh = shape >= 0 ? shape : r.irange(0, 6);
@@ -209,6 +288,7 @@ inline Scene gp_scene(Rng& r, GpCounters& gc, int magexp, int shape = -1, int ma
     if (!general_position(all, sc.M, &st)) { ++gc.rejected; sc.squash = 0; continue; }
     sc.ok = true; sc.shape = sh; sc.R = R; sc.crossings = st.crossings;
     sc.vacuous = ldexp((double)sc.M, -42) > 1.0 && (double)tol_of(sc.M) * 200.0 > R;
+    if (r.chance(sc.squash > 0 ? 0.4 : 0.04) && nudge_crossing_past_scanline(r, sc)) ++gc.tie;
     return sc;
   }
   ++gc.gave_up;
